@@ -468,7 +468,7 @@ def client_write_op(rng, ci, spec):
             vals[e["name"]] = rng.choice(["new", "a<b&c", "é", "x y", "v%d" % rng.randrange(9)])
         elif k == "number":
             vals[e["name"]] = rng.choice(["12", "-1.5", "12:30", "-0:30:00.5", "7;15", "100.", "+3", "1 30 00", "12:30.5", "-0:06.5", "7 45.25", "7;45.2", ".5",
-                                          "9007199254740992", "-4503599627370497"])          # integers at the edge of what a double holds exactly
+                                          "9007199254740993", "-1234567890123456789", "18014398509481985"])     # integers a double cannot hold
         elif k == "switch":
             vals[e["name"]] = rng.choice(["On", "Off"])
         else:
